@@ -141,16 +141,16 @@ def reentrancy_rule(ctx: Ctx, rule: str) -> None:
 
 
 def run(ctx: Ctx) -> None:
-    T.t_a1(ctx, "1/T.A1")
-    T.t_a1_owner(ctx, "2")
-    T.t_p1(ctx, "3/T.P1")
-    T.t_e1(ctx, "4/T.E1")
-    T.t_s1(ctx, "5/T.S1")
-    T.t_s1c(ctx, "5c/T.S1c")
-    is_occupied_rule(ctx, "6")
-    reentrancy_rule(ctx, "7")
-    occupied_bounce(ctx, "8")
-    T.t_o1(ctx, "9/T.O1")
+    ctx.call(T.t_a1, "1/T.A1")
+    ctx.call(T.t_a1_owner, "2")
+    ctx.call(T.t_p1, "3/T.P1")
+    ctx.call(T.t_e1, "4/T.E1")
+    ctx.call(T.t_s1, "5/T.S1")
+    ctx.call(T.t_s1c, "5c/T.S1c")
+    ctx.call(is_occupied_rule, "6")
+    ctx.call(reentrancy_rule, "7")
+    ctx.call(occupied_bounce, "8")
+    ctx.call(T.t_o1, "9/T.O1")
 
 
 G = "cartgraph/graph.py"
